@@ -21,6 +21,8 @@ import BioCantor.Proofs.AlgUnion
 import BioCantor.Proofs.AlgExtend
 import BioCantor.Proofs.AlgDistance
 import BioCantor.Proofs.AlgMisc
+import BioCantor.Proofs.AlgMinus
+import BioCantor.Proofs.AlgContains
 namespace BioCantor.Props.C02
 open BioCantor BioCantor.Spec BioCantor.Model BioCantor.Proofs
 
@@ -63,6 +65,22 @@ theorem optimize_spec (a : PLoc) (ha : WFP a) : okOptimize a (ans (optimizeBlock
 theorem optimizeAndCombine_spec (a : PLoc) (ha : WFP a) :
     okOptCombine a (ans (optimizeAndCombineP a)) = true :=
   optimizeAndCombineP_ok a ha
+
+/-- T4: for a subtrahend that is not self-overlapping, `a.minus(b)` covers exactly the positions of `a` that are not
+    positions of `b` (all of `a` when the parents are incompatible or — under `match_strand` — the strands differ),
+    on the strand and parent of `a`, well formed, inside the parent's sequence; `a` may be any layout. For a
+    self-overlapping subtrahend (outside the property's claim) the call may refuse, and whatever it returns is well
+    formed. -/
+theorem minus_spec (a b : PLoc) (ha : WFP a) (hb : WFP b) (ms strict : Bool) (hq : ¬ EmptyArgQuirk a b ms) :
+    okMinus a b ms strict (ans (minusP a b ms strict)) = true :=
+  minusP_ok a b ha hb ms strict hq
+
+/-- T5: for operands that are not self-overlapping (for every layout in the span variant) `a.contains(b)` ⇔ `b` has a
+    position and every position of `b` is a position of `a` (of the full spans with `full_span`), gated by strand and
+    parents; outside that domain (the code counts with multiplicity) the call still answers a boolean. -/
+theorem contains_spec (a b : PLoc) (ha : WFP a) (hb : WFP b) (ms fs strict : Bool) (hq : ¬ EmptyArgQuirk a b ms) :
+    okContains a b ms fs strict (ans (containsP a b ms fs strict)) = true :=
+  containsP_ok a b ha hb ms fs strict hq
 
 /-- T6: `gaps_location` covers exactly the uncovered positions between the first and the last non-empty block
     (`EmptyLocation` when there is none); an unstranded multi-block location is refused. -/
